@@ -387,6 +387,15 @@ func (h *H) checkCondRelations(idx, m, n int) {
 			h.fail("mat.Cond", shape+",norm=Inf", "differs-from-Cond-of-the-factorization", id, idf("mat.Cond(A, Inf) = %v, %s Cond() = %v", cInf, map[string]string{"tall": "QR", "wide": "LQ", "square": "LU"}[shape], cf), replay)
 		}
 	}
+	if m == n {
+		// Square: Cond(A, .) and Cond(At, .) come from two different LU
+		// factorizations (different pivoting) and the LAPACK estimator only
+		// returns a lower bound that may settle on different local maxima:
+		// the two values need not agree (seed 91: 1 % apart). Only the
+		// rectangular case, where the triangular factors are transposes of
+		// each other and the estimator runs the same iteration, is judged.
+		return
+	}
 	dim := float64(max(m, n))
 	h.check("cond-transpose-relation", "mat.Cond", shape+",norm=1", math.Abs(c1-ctInf), dim*eps*math.Max(c1, ctInf)*math.Max(c1, ctInf), id, replay)
 	h.check("cond-transpose-relation", "mat.Cond", shape+",norm=Inf", math.Abs(cInf-ct1), dim*eps*math.Max(cInf, ct1)*math.Max(cInf, ct1), id, replay)
